@@ -144,6 +144,11 @@ func runC07(c *Ctx, r *Report, tier string) {
 			ok := flCl != nil && c.actsFor(u.in.Parent(), flCl) && strings.HasPrefix(u.key, "call:(*Option).LongNameWithNamespace("+opt) && strings.HasPrefix(u.val, opt)
 			r.Check(ok, "TABLES", u.fn, "longNames[LongNameWithNamespace(o)] = o", c.ipos(u.in), "keyed by the namespaced long name of the stored option, untransformed", "longNames["+trunc(u.key, 80)+"] = "+trunc(u.val, 60))
 		case "lookup.shortNames":
+			// only options that HAVE a short name enter the short-name table (rune 0 is "none", not a name)
+			if flCl != nil {
+				_, hasName := c.Requires(flCl, isInstr(u.in), litHas(true, "nonzero(Option.ShortName("+opt), nil)
+				r.Check(hasName, "TABLES", u.fn, "short-name table only for options with a short name", c.ipos(u.in), "insert REQ(option.ShortName != 0)", "an option without a short name is entered in the short-name table under the NUL rune: `-\\x00` is accepted as that option")
+			}
 			ok := flCl != nil && c.actsFor(u.in.Parent(), flCl) && strings.HasPrefix(u.key, "conv[string](Option.ShortName("+opt) && strings.HasPrefix(u.val, opt)
 			r.Check(ok, "TABLES", u.fn, "shortNames[string(o.ShortName)] = o", c.ipos(u.in), "keyed by the short rune of the stored option", "shortNames["+trunc(u.key, 80)+"] = "+trunc(u.val, 60))
 		case "lookup.commands":
